@@ -203,6 +203,38 @@ def check(prog, run):
                  "a document edited in place (a fragment replaced or added) would be measured against the fragments it had when "
                  "first looked at, and a deep operation would pass", 5)
 
+    # ---- D11 validating leaves the rule object as configured
+    r11 = run.rule("D11", "no method of MaxDepthValidationRule other than __init__ writes to the rule object: no store to `self.<attr>`, to "
+                          "`self.<attr>[...]`, and no mutating call (`append`, `add`, `update`, `setdefault`, `pop`, `clear`, `extend`, "
+                          "`insert`, `remove`, `discard`, `popitem`) on `self.<attr>` - the rule is built once and called for every request, "
+                          "so anything it remembers from one (document, variables) answers for the next: a depth measured under one "
+                          "set of @skip/@include variables is not the depth under another", 1)
+    cls19 = prog.get_class(MOD, "MaxDepthValidationRule")
+    MUT = {"append", "add", "update", "setdefault", "pop", "clear", "extend", "insert", "remove", "discard", "popitem", "__setitem__"}
+    for mname, m in sorted(cls19.methods.items()):
+        if m.cls is not cls19 or mname == "__init__" or not m.params:
+            continue
+        run.looked_at(m)
+        me = m.params[0]
+        r11.instance("%s writes nothing to %s" % (m.qualname, me))
+        def on_self(e):
+            while isinstance(e, (ast.Subscript, ast.Attribute)):
+                if isinstance(e, ast.Attribute) and isinstance(e.value, ast.Name) and e.value.id == me:
+                    return True
+                e = e.value
+            return False
+        for n in own_nodes(m.node):
+            bad = None
+            if isinstance(n, (ast.Attribute, ast.Subscript)) and isinstance(n.ctx, (ast.Store, ast.Del)) and on_self(n):
+                bad = n
+            elif isinstance(n, ast.Call) and isinstance(n.func, ast.Attribute) and n.func.attr in MUT and on_self(n.func.value):
+                bad = n
+            if bad is not None:
+                run.report(r11, "%s:%s:writes-rule-object(%s)" % (MOD, m.qualname, ast.unparse(bad)[:60]), m.where(bad),
+                           "%s executes `%s`: the rule object is changed by a validation, so the next validation with the same rule "
+                           "object (another document, or the same document with other variables) can be answered from this one"
+                           % (m.qualname, ast.unparse(bad)[:100]))
+
     # ---- D7 the depth walk is schema-blind
     r = run.rule("D7", "nothing reachable from MaxDepthValidationRule.__call__ filters selections by type: no call to the typed "
                        "collect_fields / _fragment_type_applies and no use of schema root types (query_type, mutation_type, ...) on the "
